@@ -926,6 +926,45 @@ func (k *vKit) applyMeta(f string) string {
 	return ""
 }
 
+// unreachable runs fn while a serving leader does not answer leader epoch offset requests: its
+// subscription for them is removed and restored afterwards (NATS request / reply is at-most-once: a
+// request nobody answers is what a follower sees when requests or responses are lost, or when the new
+// leader has not subscribed yet).  The follower's three attempts fail and it reconciles by its HW.
+// Nothing is done when nobody serves (leader down): the requests go unanswered anyway.
+func (k *vKit) unreachable(fn func() string) string {
+	p := k.part(k.leader)
+	if p == nil {
+		return fn()
+	}
+	p.mu.Lock()
+	serving := p.isLeading && p.leaderOffsetSub != nil
+	var err error
+	if serving {
+		err = p.leaderOffsetSub.Unsubscribe()
+	}
+	p.mu.Unlock()
+	if !serving {
+		return fn()
+	}
+	if err != nil {
+		return "unsubscribe-error:" + err.Error()
+	}
+	p.srv.ncRepl.Flush()
+	res := fn()
+	p.mu.Lock()
+	sub, err := p.srv.ncRepl.Subscribe(p.getLeaderOffsetRequestInbox(), p.handleLeaderOffsetRequest)
+	if err == nil {
+		sub.SetPendingLimits(-1, -1)
+		p.leaderOffsetSub = sub
+	}
+	p.mu.Unlock()
+	p.srv.ncRepl.Flush()
+	if err != nil && res == "" {
+		return "subscribe-error:" + err.Error()
+	}
+	return res
+}
+
 func (k *vKit) hwFile(id string) string {
 	return filepath.Join(k.base, id, "streams", k.stream, "0", "replication-offset-checkpoint")
 }
@@ -1261,7 +1300,12 @@ func (k *vKit) step(id int, step map[string]interface{}) vRepEvent {
 		res = k.crash(vStr(step, "r"))
 	case "Restart":
 		args["r"], args["reach"] = vStr(step, "r"), vBool(step, "reach")
-		res = k.restart(vStr(step, "r"))
+		if vBool(step, "reach") {
+			res = k.restart(vStr(step, "r"))
+		} else {
+			// the leader epoch offset requests of the rejoining replica go unanswered (HW fallback)
+			res = k.unreachable(func() string { return k.restart(vStr(step, "r")) })
+		}
 	case "Elect":
 		lag := map[string]bool{}
 		lagList := []string{}
@@ -1303,7 +1347,11 @@ func (k *vKit) step(id int, step map[string]interface{}) vRepEvent {
 		res = k.fetch(vStr(step, "f"))
 	case "ApplyMeta":
 		args["f"], args["reach"] = vStr(step, "f"), vBool(step, "reach")
-		res = k.applyMeta(vStr(step, "f"))
+		if vBool(step, "reach") {
+			res = k.applyMeta(vStr(step, "f"))
+		} else {
+			res = k.unreachable(func() string { return k.applyMeta(vStr(step, "f")) })
+		}
 	default:
 		k.t.Fatalf("unknown action %q", a)
 	}
